@@ -152,7 +152,11 @@ inline void Driver::stepAuthority(Inst& in, long k) {
 	p.step = (uint64_t)k;
 	Instance& m = *in.m;
 	int wImm = wImmediate, wEE = VH_MANUAL ? wExitEnter : 0;
-	const int total = wUpdate + wReact + wQuery + wImm + wReset + wEE;
+	int wPE = 0, wES = 0;
+#ifdef HFSM2_ENABLE_PLANS
+	wPE = wPlanEdit; wES = wExtStatus;
+#endif
+	const int total = wUpdate + wReact + wQuery + wImm + wReset + wEE + wPE + wES;
 	int r = (int)(next() % (uint64_t)(total > 0 ? total : 1));
 	int op;
 	if ((r -= wUpdate) < 0) op = OP_UPDATE;
@@ -160,6 +164,8 @@ inline void Driver::stepAuthority(Inst& in, long k) {
 	else if ((r -= wQuery) < 0) op = OP_QUERY;
 	else if ((r -= wImm) < 0) op = OP_IMMEDIATE;
 	else if ((r -= wReset) < 0) op = OP_RESET;
+	else if ((r -= wPE) < 0) op = OP_PLANEDIT;
+	else if ((r -= wES) < 0) op = OP_EXTSTATUS;
 	else op = OP_EXIT;
 	lastOp = op;
 
@@ -187,6 +193,29 @@ inline void Driver::stepAuthority(Inst& in, long k) {
 		opEnd(in); break; }
 	case OP_RESET:
 		opBegin(in, op); m.reset(); opEnd(in); break;
+#ifdef HFSM2_ENABLE_PLANS
+	case OP_PLANEDIT: {
+		opBegin(in, op);
+		const int nEdits = 1 + (int)(next() % 3);
+		for (int e = 0; e < nEdits; ++e) {
+			const int reg = (int)(next() % (uint64_t)VH_SHAPE.nRegions);
+			const int what = (int)(next() % 10);
+			if (what < 7) vhPlanAppend(m.plan((hfsm2::RegionID)reg), p, reg, -1);
+			else if (what < 9) planRemove(m.plan((hfsm2::RegionID)reg), p, reg, (int)(next() % 4), -1);
+			else { log.tag('K'); log.i(reg); log.nl(); m.plan((hfsm2::RegionID)reg).clear(); }
+		}
+		opEnd(in); break; }
+	case OP_EXTSTATUS: {
+		opBegin(in, op);
+		int st = 1 + (int)(next() % (uint64_t)(VH_SHAPE.nStates > 1 ? VH_SHAPE.nStates - 1 : 1));
+		for (int t = 0; t < 8 && !m.isActive((hfsm2::StateID)st); ++t) st = 1 + (int)(next() % (uint64_t)(VH_SHAPE.nStates - 1));
+		if (st < VH_SHAPE.nStates && m.isActive((hfsm2::StateID)st)) {
+			const int fail = (next() % 5 == 0);
+			log.tag('s'); log.i(fail); log.i(st); log.i(-1); log.nl();
+			if (fail) m.fail((hfsm2::StateID)st); else m.succeed((hfsm2::StateID)st);
+		}
+		opEnd(in); break; }
+#endif
 	case OP_EXIT:
 #if VH_MANUAL
 		opBegin(in, OP_EXIT); doExit(in); opEnd(in);
